@@ -224,7 +224,7 @@ func (xs *xSearch) normalize(content uint64, queues map[string][]string) map[str
 // nothing but dead tokens left if NeedIdle) and runs it for real.
 func (x *Explorer) ConfirmExact(target *E1State, opts ConfirmOpts) *Confirmation {
 	if opts.MaxNodes == 0 {
-		opts.MaxNodes = 300000
+		opts.MaxNodes = envInt("VERIF_E1X_NODES", 300000)
 	}
 	xs := &xSearch{x: x, memo: map[string]xResult{}, dist: map[uint64]int{}, deadMemo: map[string]bool{}, consMemo: map[string]bool{}}
 	// the cone: backward reachability in the abstraction's content graph
